@@ -69,6 +69,63 @@ def build_classes():
         open(stamp, "w").write("ok")
 
 
+SKEW_GO = '''// Added to package time by the verification harness build (go build -overlay): the wall clock of the
+// process can be shifted by HV_CLOCK_SKEW_SEC seconds, so that the replicas of one chain can run on machines
+// whose clocks disagree.  The monotonic clock is untouched.
+package time
+
+import "syscall"
+
+var verifClockSkew int64
+
+func init() {
+	s, ok := syscall.Getenv("HV_CLOCK_SKEW_SEC")
+	if !ok || s == "" {
+		return
+	}
+	var v int64
+	neg := false
+	for i := 0; i < len(s); i++ {
+		ch := s[i]
+		if i == 0 && ch == '-' {
+			neg = true
+			continue
+		}
+		if ch < '0' || ch > '9' {
+			return
+		}
+		v = v*10 + int64(ch-'0')
+	}
+	if neg {
+		v = -v
+	}
+	verifClockSkew = v
+}
+'''
+
+
+def clock_overlay():
+    """Overlay entries that give the harness binary a wall clock which HV_CLOCK_SKEW_SEC can shift: the toolchain's
+    own time.go with one added line in Now(), generated from GOROOT at build time (nothing if it does not have the
+    expected shape - the followers then simply share the machine's clock)."""
+    try:
+        goroot = sh(["go", "env", "GOROOT"], cwd=REPO, env=GOENV, check=False).stdout.strip()
+        src = open(os.path.join(goroot, "src", "time", "time.go")).read()
+        anchor = "\tsec, nsec, mono := now()\n\tmono -= startNano\n"
+        if src.count(anchor) != 1:
+            return {}
+        d = os.path.join(BUILD, "stdoverlay")
+        os.makedirs(d, exist_ok=True)
+        with open(os.path.join(d, "time.go"), "w") as fh:
+            fh.write(src.replace(anchor, "\tsec, nsec, mono := now()\n\tsec += verifClockSkew\n\tmono -= startNano\n"))
+        with open(os.path.join(d, "zz_verif_skew.go"), "w") as fh:
+            fh.write(SKEW_GO)
+        return {os.path.join(goroot, "src", "time", "time.go"): os.path.join(d, "time.go"),
+                os.path.join(goroot, "src", "time", "zz_verif_skew.go"): os.path.join(d, "zz_verif_skew.go")}
+    except Exception:
+        return {}
+
+
 def build_harness():
     """(Re)build build/hv from /repo's current working tree + /verif/harness via -overlay."""
     t0 = time.time()
@@ -78,6 +135,7 @@ def build_harness():
             repl[os.path.join(REPO, "zzverif", os.path.basename(f))] = f
         for f in sorted(glob.glob(os.path.join(HARNESS, "embed", "*"))):
             repl[os.path.join(REPO, "zzverif", "embed", os.path.basename(f))] = f
+        repl.update(clock_overlay())
         ov = os.path.join(BUILD, "overlay.json" if REPO == "/repo" else "overlay-" + os.path.basename(HV) + ".json")
         with open(ov, "w") as fh:
             json.dump({"Replace": repl}, fh, indent=1)
